@@ -32,8 +32,9 @@ def sh(cmd, cwd=None, env=None, timeout=900):
 def job(name):
     from sa.selftest import analyse
     from sa.model import AnalysisError
-    os.environ['VERIF_BOUNDED_DEPTH'] = '3'
-    os.environ['VERIF_BOUNDED_COMBS'] = ''
+    deep = name in ('C05a', 'C06b', 'C06e', 'C06f') or os.environ.get('VERIF_META_DEEP')
+    os.environ['VERIF_BOUNDED_DEPTH'] = '3' if deep else '2'
+    os.environ['VERIF_BOUNDED_COMBS'] = '' if deep else '0'
     os.environ['VERIF_INNER_JOBS'] = '2'
     d = os.path.join(VERIF, 'seeded', name)
     tmp = tempfile.mkdtemp(prefix='seedmeta_')
@@ -64,7 +65,7 @@ def job(name):
                 conf['demo_exit_with_change'] = sh('%s %s' % (PY, demo), cwd=d, env={'PYTHONPATH': os.path.join(tmp, 'src')}, timeout=600)[0]
                 conf['demo_exit_clean'] = sh('%s %s' % (PY, demo), cwd=d, env={'PYTHONPATH': os.path.join(REPO, 'src')}, timeout=600)[0]
             conf['how'] = ('tools/mk_seed_meta.py: scratch copy of /repo (src, tests), patch -p1, pytest tests, demo.py with PYTHONPATH=<copy>/src '
-                           'and =/repo/src, then every check on the copy (quick tier)')
+                           'and =/repo/src, then every check on the copy (bounded compiler check at depth %s)' % os.environ['VERIF_BOUNDED_DEPTH'])
             detected, errors = {}, {}
             for prop in PROPS:
                 try:
